@@ -240,6 +240,12 @@ def _run_impl(case):
             else {"leaf": idof(n)}
             for n in ln.nodes
         ]
+        # ValueNode.format may adapt its formatter while printing: keep the count nodes as they are BEFORE the write
+        numcopies = {
+            id(n): copy.deepcopy(n._num_node)
+            for n in ln.nodes
+            if isinstance(n, sn.ShortcutNode) and KIND[n._type.value] == "mul"
+        }
         try:
             ob["text"] = ln.format()
         except Exception as e:  # noqa: BLE001
@@ -249,7 +255,9 @@ def _run_impl(case):
             break
         for n in ln.nodes:
             if isinstance(n, sn.ShortcutNode) and KIND[n._type.value] == "mul" and id(n) in sidof:
-                t = n._num_node.format().strip()
+                c = numcopies[id(n)]
+                c.value = n._num_node.value  # the factor the real write computed
+                t = c.format().strip()
                 d = mcase["shortcuts"][sidof[id(n)]]
                 d["mulTxt"] = t
                 d["mulWritten"] = rat(ref.parse_number(t.strip())) if ref.parse_number(t.strip()) is not None else None
@@ -477,6 +485,9 @@ CORPUS = [
     {"unit": "listnode", "text": "1 2i 4", "rounds": [[["set", 1, 2.5]]]},
     {"unit": "listnode", "text": "1 2i 4 3m", "rounds": [[["set", 3, 5.0]]]},
     {"unit": "listnode", "text": "1 2i 4 2 2 r", "rounds": [[["set", 2, 2.0], ["set", 3, 2.0]]]},
+    # entry behind a line break (fix 3dc089c)
+    {"unit": "listnode", "text": "4.\n", "rounds": [[["insj", 1], ["insj", 2], ["ins", 3, "0.5"]]]},
+    {"unit": "listnode", "text": "1 2r\n", "rounds": [[["ins", 3, "7.5"]]]},
 ]
 
 
@@ -534,7 +545,11 @@ def gen_card_case(rng, i):
             edits.append(["remove", rng.randrange(k)])
         elif r < 0.9:
             edits.append(["append", rng.choice([0.0, 1.0, 2.0])])
-    return {"unit": "cards", "kind": kind, "k": k, "words": words, "edits": edits}
+    case = {"unit": "cards", "kind": kind, "k": k, "words": words, "edits": edits}
+    if rng.random() < 0.35:
+        case["comment_after"] = True
+        case["indent"] = rng.choice(["", "   "])
+    return case
 
 
 def _card_file(case):
@@ -548,7 +563,13 @@ def _card_file(case):
     lines.append("")
     lines.append("mode n")
     card = CARD[case["kind"]]
-    lines.append(card + " " + " ".join(case["words"]))
+    if case.get("raw_card"):
+        lines += case["raw_card"]  # the card verbatim (several lines); `words` holds the same entries
+    else:
+        lines.append(case.get("indent", "") + card + " " + " ".join(case["words"]))
+    if case.get("comment_after"):
+        # the comment is handed to the next input: the card's last entry is then followed by a bare line break
+        lines.append("c a comment behind the card")
     if case["kind"] != "imp":
         lines.append("imp:n 1 " + (f"{k - 1}r" if k > 1 else ""))
     lines.append("")
@@ -626,7 +647,11 @@ def _run_card(case):
                 vals += list(t.rotation_matrix)
             return [float(v) for v in vals]
 
-        ob["read_values"] = [rat(v) for v in values()]
+        try:
+            ob["read_values"] = [rat(v) for v in values()]
+        except Exception as e:  # noqa: BLE001  the object built from the card does not hold numbers
+            ob["read_err"] = "values:" + type(e).__name__
+            return ob
         try:
             for e in sorted(case["edits"], key=lambda e: e[0] == "unset"):
                 cl = list(cells)
@@ -664,6 +689,9 @@ def _run_card(case):
             ob["site"] = "format"
             return ob
         ob["text"] = _read_card(out, CARD[kind])
+        if case.get("keep"):
+            with open(out) as fh:
+                ob["kept"] = case["keep"] in fh.read()
         return ob
     finally:
         shutil.rmtree(d, ignore_errors=True)
@@ -681,6 +709,8 @@ def judge_card(case, ob):
         if ref.expand(" ".join(case["words"])) is not None:
             deliberate = ob["read_err"] in ("MalformedInputError", "ParsingError", "ValueError", "IllegalState", "UnsupportedFeature")
             cls = "valid-list-rejected" if deliberate else "leak:" + ob["read_err"]
+            if ob["read_err"].startswith("values:"):
+                cls = "expand-wrong"  # the card was accepted but the object holds something that is not a number
             return (dict(kind_sig, **{"class": cls, "kind": first, "site": "parse", "parser": "DataParser"}), f"{case['words']} rejected: {ob['read_err']}")
         return None
     ex = ref.expand(" ".join(case["words"]))
@@ -708,6 +738,8 @@ def judge_card(case, ob):
         vals = vals  # every cell has an importance
     bad = ref.compare(ob["text"], vals)
     if bad is None:
+        if ob.get("kept") is False:
+            return (dict(kind_sig, **{"class": "comment-lost", "kind": first, "site": "consume"}), f"{case['keep']!r} is no longer in the written file")
         return None
     cls, kd, detail = bad
     return (dict(kind_sig, **{"class": cls, "kind": kd, "site": "format"}), f"{detail}; card text {ob['text']!r}")
@@ -811,6 +843,9 @@ def check_listnode_case(chk, drv, case, ri, table, ci, confirm=True):
                 if m2["items"] == ob2["items"] and m2["text"] == ob2["text"]:
                     chk.count("flaky:correspondence")
                     return True
+                if _in_isclose_band(ob2["model_case"]):
+                    chk.count("band:multiply-threshold (not compared)")
+                    return True
                 chk.broken_obligation(
                     "correspondence",
                     "U-listnode (Model/ListNode.lean, Model/Shortcut.lean vs syntax_node.py ListNode/ShortcutNode)",
@@ -821,6 +856,26 @@ def check_listnode_case(chk, drv, case, ri, table, ci, confirm=True):
             if not m["spec"]["ok"]:
                 # the model's own text does not read back as its values: the theorem C08_recompress is contradicted
                 chk.broken_obligation("correspondence", "model text vs Spec (C08_recompress instance)", {"model": m}, case)
+                return True
+    return False
+
+
+def _in_isclose_band(mcase):
+    """a multiply validation `isclose(base * written, product)` of this case sits within 1e-12 of the threshold:
+    exact rationals (model) and doubles (code) may then decide differently (DESIGN 1.3); such a case is not compared"""
+    vals = [None if v["val"] is None else Fraction(*v["val"]) for v in mcase.get("vals", [])]
+    for sc in mcase.get("shortcuts", []):
+        if sc["kind"] != "mul" or sc.get("mulWritten") is None:
+            continue
+        w = Fraction(*sc["mulWritten"])
+        for b, p_ in zip(vals, vals[1:]):
+            if b is None or p_ is None:
+                continue
+            m = max(abs(b * w), abs(p_))
+            if m == 0:
+                continue
+            r = abs(b * w - p_) / m
+            if abs(r - Fraction(1, 10**9)) <= Fraction(1, 10**12):
                 return True
     return False
 
